@@ -297,6 +297,190 @@ example : Consistent [30, 20, 10] [(0, 30), (1, 20), (2, 10)] ∧ Desc [30, 20, 
   simp only [List.mem_cons, List.mem_singleton, List.not_mem_nil, or_false] at hx
   rcases hx with h | h | h <;> rw [h] <;> rfl
 
+/-! ### a complete read-through (`get_faultlog`) -/
+
+def HasKey (m : FMap) (k : Nat) : Prop := ∃ y ∈ m, y.1 = k
+
+theorem fmSet_key_self (m : FMap) (k v : Nat) : HasKey (fmSet m k v) k := by
+  unfold fmSet
+  split
+  · rename_i h
+    obtain ⟨y, hy, hk⟩ := List.any_eq_true.1 h
+    refine ⟨(k, v), ?_, rfl⟩
+    simp only [List.mem_map]
+    exact ⟨y, hy, by simp only [decide_eq_true_eq] at hk; simp [hk]⟩
+  · exact ⟨(k, v), by simp, rfl⟩
+
+theorem fmSet_keys (m : FMap) (k v j : Nat) (h : HasKey m j) : HasKey (fmSet m k v) j := by
+  obtain ⟨x, hx, hj⟩ := h
+  unfold fmSet
+  split
+  · by_cases hxk : x.1 = k
+    · refine ⟨(k, v), ?_, by omega⟩
+      simp only [List.mem_map]
+      exact ⟨x, hx, by simp [hxk]⟩
+    · refine ⟨x, ?_, hj⟩
+      simp only [List.mem_map]
+      exact ⟨x, hx, by simp [hxk]⟩
+  · exact ⟨x, by simp [hx], hj⟩
+
+theorem fmUpdate_keys_left (m o : FMap) (j : Nat) (h : HasKey m j) : HasKey (fmUpdate m o) j := by
+  unfold fmUpdate
+  induction o generalizing m with
+  | nil => exact h
+  | cons kv o ih => simp only [List.foldl_cons]; exact ih _ (fmSet_keys m kv.1 kv.2 j h)
+
+theorem fmUpdate_keys_right (m o : FMap) (j : Nat) (h : HasKey o j) : HasKey (fmUpdate m o) j := by
+  induction o generalizing m with
+  | nil => obtain ⟨_, hx, _⟩ := h; cases hx
+  | cons kv o ih =>
+    obtain ⟨x, hx, hj⟩ := h
+    simp only [List.mem_cons] at hx
+    have e : fmUpdate m (kv :: o) = fmUpdate (fmSet m kv.1 kv.2) o := rfl
+    rw [e]
+    rcases hx with hx | hx
+    · subst hx
+      exact fmUpdate_keys_left _ _ _ (hj ▸ fmSet_key_self m x.1 x.2)
+    · exact ih _ ⟨x, hx, hj⟩
+
+/-- a reply for position `i` puts position `i` into the view -/
+theorem insert_some_has_self (m : FMap) (i d : Nat) : HasKey (insertIntoMap m i (some d)) i := by
+  unfold insertIntoMap
+  simp only
+  split
+  · exact fmSet_key_self _ _ _
+  · exact fmUpdate_keys_left _ _ _ (fmSet_key_self _ _ _)
+
+/-- ... and keeps every lower position that was known (their entries are newer) -/
+theorem insert_some_keeps (L : List Nat) (m : FMap) (j d k : Nat) (hc : Consistent L m) (hd : Desc L)
+    (hj : L[j]? = some d) (hk : k < j) (h : HasKey m k) : HasKey (insertIntoMap m j (some d)) k := by
+  obtain ⟨x, hx, hxk⟩ := h
+  have hnewer : x.2 > d := by
+    have := desc_lt L hd x.1 j x.2 d (hc x hx) hj (by omega)
+    omega
+  have h1 : HasKey (fmUpdate [] (m.filter (fun kv => kv.1 < j && kv.2 > d))) k :=
+    fmUpdate_keys_right _ _ _ ⟨x, List.mem_filter.2 ⟨hx, by simp; omega⟩, hxk⟩
+  have h2 := fmSet_keys _ j d k h1
+  unfold insertIntoMap
+  simp only
+  split
+  · exact h2
+  · exact fmUpdate_keys_left _ _ _ h2
+
+theorem insert_none_keeps (m : FMap) (j k : Nat) (hk : k < j) (h : HasKey m k) : HasKey (insertIntoMap m j none) k := by
+  obtain ⟨x, hx, hxk⟩ := h
+  unfold insertIntoMap
+  exact fmUpdate_keys_right _ _ _ ⟨x, List.mem_filter.2 ⟨hx, by simp; omega⟩, hxk⟩
+
+theorem get_of_haskey (L : List Nat) (m : FMap) (k : Nat) (hc : Consistent L m) (h : HasKey m k) : m.get? k = L[k]? := by
+  obtain ⟨x, hx, hxk⟩ := h
+  unfold FMap.get?
+  cases hf : m.find? (fun kv => decide (kv.1 = k)) with
+  | none =>
+    have := List.find?_eq_none.1 hf x hx
+    simp [hxk] at this
+  | some y =>
+    have hy := List.mem_of_find?_eq_some hf
+    have hyk : y.1 = k := by simpa using List.find?_some hf
+    simp only [Option.map_some]
+    rw [← hyk]
+    exact (hc y hy).symm
+
+/-- the controller's answer for position `i` keeps a consistent view consistent -/
+theorem consistent_ctlReply (L : List Nat) (s : FLog) (i : Nat) (hc : Consistent L s.map) (hd : Desc L) :
+    Consistent L (processMsg s (ctlReply L i)).map := by
+  unfold processMsg ctlReply
+  simp only
+  cases hi : L[i]? with
+  | none => exact consistent_null_partial L s.map i hc
+  | some d =>
+    simp only
+    split
+    · exact hc
+    · exact consistent_reply_partial L s.map i d hc hd hi
+
+theorem ctlReply_keeps (L : List Nat) (s : FLog) (i k : Nat) (hc : Consistent L s.map) (hd : Desc L) (hk : k < i)
+    (h : HasKey s.map k) : HasKey (processMsg s (ctlReply L i)).map k := by
+  unfold processMsg ctlReply
+  simp only
+  cases hi : L[i]? with
+  | none => exact insert_none_keeps s.map i k hk h
+  | some d =>
+    simp only
+    split
+    · exact h
+    · exact insert_some_keeps L s.map i d k hc hd hi hk h
+
+theorem ctlReply_has_self (L : List Nat) (s : FLog) (i d : Nat) (hi : L[i]? = some d) :
+    HasKey (processMsg s (ctlReply L i)).map i := by
+  unfold processMsg ctlReply
+  simp only [hi]
+  split
+  · rename_i hg
+    unfold FMap.get? at hg
+    cases hf : s.map.find? (fun kv => decide (kv.1 = i)) with
+    | none => simp [hf] at hg
+    | some y => exact ⟨y, List.mem_of_find?_eq_some hf, by simpa using List.find?_some hf⟩
+  · exact insert_some_has_self s.map i d
+
+/-- the read-through loop: from a view that is consistent with the controller's log `L`, after asking
+    for positions `i, i+1, … ` (`n` requests at most, ending at the first empty position) the view is
+    still consistent and holds every position of `L` from `lo` up to `i + n` -/
+theorem readLoop_spec (L : List Nat) (hd : Desc L) (lo : Nat) : ∀ (n i : Nat) (s : FLog), lo ≤ i → Consistent L s.map →
+    (∀ k, lo ≤ k → k < i → k < L.length → HasKey s.map k) →
+    Consistent L (readLoop L n i s).map ∧
+      ∀ k, lo ≤ k → k < i + n → k < L.length → HasKey (readLoop L n i s).map k := by
+  intro n
+  induction n with
+  | zero =>
+    intro i s _ hc hk
+    exact ⟨hc, fun k h1 h2 h3 => hk k h1 (by omega) h3⟩
+  | succ n ih =>
+    intro i s hlo hc hk
+    unfold readLoop
+    simp only
+    have hc' := consistent_ctlReply L s i hc hd
+    cases hi : L[i]? with
+    | none =>
+      simp only [if_true]
+      refine ⟨hc', fun k h1 _ h3 => ?_⟩
+      have hlen : L.length ≤ i := by
+        rcases Nat.lt_or_ge i L.length with h | h
+        · rw [List.getElem?_eq_getElem h] at hi; cases hi
+        · exact h
+      exact ctlReply_keeps L s i k hc hd (by omega) (hk k h1 (by omega) h3)
+    | some d =>
+      simp only [if_false, reduceCtorEq]
+      have := ih (i + 1) (processMsg s (ctlReply L i)) (by omega) hc' (by
+        intro k h1 h2 h3
+        rcases Nat.lt_or_ge k i with h | h
+        · exact ctlReply_keeps L s i k hc hd h (hk k h1 h h3)
+        · have : k = i := by omega
+          subst this
+          exact ctlReply_has_self L s k d hi)
+      refine ⟨this.1, fun k h1 h2 h3 => this.2 k h1 (by omega) h3⟩
+
+/-- **after a complete read-through the view equals the controller's log over the range read**: for
+    every controller log `L` (newest first, of any depth), every view consistent with it (the empty
+    view of a fresh start in particular), every `start` and `limit`: each position
+    `start ≤ k < min (start + limit) 64` that the controller has reads back the controller's entry -/
+theorem readthrough_exact_partial (L : List Nat) (s : FLog) (start limit : Nat) (hd : Desc L) (hc : Consistent L s.map)
+    (k : Nat) (h1 : start ≤ k) (h2 : k < min (start + limit) logDepth) (h3 : k < L.length) :
+    (getFaultlog L s start limit).map.get? k = L[k]? ∧ Consistent L (getFaultlog L s start limit).map := by
+  unfold getFaultlog
+  have := readLoop_spec L hd start (min (start + limit) logDepth - start) start s (Nat.le_refl _) hc
+    (fun k a b _ => by omega)
+  exact ⟨get_of_haskey L _ k this.1 (this.2 k h1 (by omega) h3), this.1⟩
+
+/-- a fresh view is consistent with any log -/
+theorem empty_consistent (L : List Nat) : Consistent L FLog.empty.map := by
+  intro x hx; cases hx
+
+/-- non-vacuity, and the last position: a full 64-deep log read through from the top with limit 64
+    gives all 64 positions, 0x3F included -/
+example : (getFaultlog ((List.range 64).reverse.map (· + 1)) FLog.empty 0 64).map.get? 63 = some 1 ∧
+    (getFaultlog ((List.range 64).reverse.map (· + 1)) FLog.empty 0 64).map.length = 64 := by decide +kernel
+
 /-! ### the two recorded findings, as theorems about the model -/
 
 /-- after two lost announcements, replies for idx 2 and 3 leave one entry at two positions -/
